@@ -171,6 +171,8 @@ Record faults := {
   f_acquire : acq_fault;
   f_store : store_fault;
   f_attest : att_fault;
+  f_local_fail : bool;    (* the look-up of <guid>.key fails transiently (open / read error such as
+                             EMFILE / EIO on an intact file): the agent sees "no local key", the disk is untouched *)
 }.
 
 Definition store_cut (f : faults) (k : key) : list fs_event :=
@@ -185,10 +187,11 @@ Definition store_ok (f : faults) : bool := match f_store f with StoreOk => true 
 Definition answers_of (st : wstate) (f : faults) : answers :=
   let acq := match f_acquire f with AcqOk k => Some k | _ => None end in
   {| a_status := f_status f;
-     a_local := match f_status f with
-                | StatusDoc d => match d_guid d with Some g => fetch (fst st) g | None => None end
-                | StatusErr => None
-                end;
+     a_local := if f_local_fail f then None
+                else match f_status f with
+                     | StatusDoc d => match d_guid d with Some g => fetch (fst st) g | None => None end
+                     | StatusErr => None
+                     end;
      a_acquire := acq;
      a_store := store_ok f;
      a_readback := match acq with
@@ -319,6 +322,7 @@ Record hscript := {
   hs_acq : N;
   hs_store : option nat;                  (* Some n: the store fails after n events *)
   hs_att : N;
+  hs_local_fail : bool;                   (* the look-up of the named key file fails transiently *)
 }.
 
 Definition faults_of (hs : hscript) (st : wstate) : faults :=
@@ -329,7 +333,8 @@ Definition faults_of (hs : hscript) (st : wstate) : faults :=
                   | None => AcqErr
                   end;
      f_store := match hs_store hs with Some n => StoreFail n | None => StoreOk end;
-     f_attest := if hs_att hs =? 0 then AttOk else if hs_att hs =? 1 then AttLost else AttErr |}.
+     f_attest := if hs_att hs =? 0 then AttOk else if hs_att hs =? 1 then AttLost else AttErr;
+     f_local_fail := hs_local_fail hs |}.
 
 Definition rotate (st : wstate) : wstate :=
   (fst st, {| h_issued := h_issued (snd st); h_latched := None |}).
